@@ -454,6 +454,22 @@ func c10Misfits(c *core.Ctx) {
 		{"stack-shape-differs", [][]int{{2, 3}, {2, 4}}, 1, stack(1)},
 		{"stack-rank-differs", [][]int{{2, 3}, {2, 3, 1}}, 0, stack(0)},
 		{"stack-axis-out-of-range", [][]int{{2, 3}, {2, 3}}, 3, stack(3)},
+		// a vector and its row/column-vector forms have different ranks: no stacking or joining of one with the other
+		{"stack-rank-differs-by-unit-axis", [][]int{{3}, {3, 1}}, 0, stack(0)},
+		{"stack-rank-differs-by-unit-axis", [][]int{{3}, {1, 3}}, 0, stack(0)},
+		{"stack-rank-differs-by-unit-axis", [][]int{{3, 1}, {3}}, 0, stack(0)},
+		{"stack-rank-differs-by-unit-axis", [][]int{{1, 3}, {3}}, 1, stack(1)},
+		{"stack-rank-differs-by-unit-axis", [][]int{{3}, {3}, {3, 1}}, 0, stack(0)},
+		{"stack-rank-differs-by-unit-axis", [][]int{{3}, {3, 1}}, 0, c10Call{"tensor.Stack", func(ds []*tensor.Dense) (tensor.Tensor, error) {
+			ts := make([]tensor.Tensor, len(ds))
+			for i, d := range ds {
+				ts[i] = d
+			}
+			return tensor.Stack(0, ts[0], ts[1:]...)
+		}}},
+		{"concat-rank-differs-by-unit-axis", [][]int{{3}, {3, 1}}, 0, concat(0)},
+		{"concat-rank-differs-by-unit-axis", [][]int{{3, 1}, {3}}, 0, concat(0)},
+		{"concat-rank-differs-by-unit-axis", [][]int{{1, 3}, {3}}, 1, concat(1)},
 		{"hstack-rows-differ", [][]int{{2, 3}, {3, 3}}, 1, c10Call{"Hstack", func(ds []*tensor.Dense) (tensor.Tensor, error) { return ds[0].Hstack(ds[1:]...) }}},
 		{"vstack-cols-differ", [][]int{{2, 3}, {2, 4}}, 0, c10Call{"Vstack", func(ds []*tensor.Dense) (tensor.Tensor, error) { return ds[0].Vstack(ds[1:]...) }}},
 	}
